@@ -77,6 +77,53 @@ fn all_equal(what: &str, base: &str, variants: &[(String, String)]) -> Result<()
     Ok(())
 }
 
+/// io::Write sinks that do not take everything at once
+struct Trickle {
+    kind: u8,
+    calls: usize,
+    got: Vec<u8>,
+}
+
+impl std::io::Write for Trickle {
+    fn write(&mut self, buf: &[u8]) -> std::io::Result<usize> {
+        self.calls += 1;
+        let n = match self.kind {
+            0 => 1,
+            1 => 3,
+            2 => {
+                if self.calls % 2 == 1 {
+                    return Err(std::io::ErrorKind::Interrupted.into());
+                }
+                2
+            }
+            _ => buf.len(),
+        }
+        .min(buf.len());
+        self.got.extend_from_slice(&buf[..n]);
+        Ok(n)
+    }
+    fn write_vectored(&mut self, bufs: &[std::io::IoSlice<'_>]) -> std::io::Result<usize> {
+        if self.kind != 3 {
+            let first = bufs.iter().find(|b| !b.is_empty()).map(|b| &**b).unwrap_or(&[]);
+            return self.write(first);
+        }
+        // gathers, but stops two bytes short of the end when there is more than one slice
+        self.calls += 1;
+        let total: usize = bufs.iter().map(|b| b.len()).sum();
+        let mut left = if bufs.len() > 1 { total.saturating_sub(2) } else { total };
+        let taken = left;
+        for b in bufs {
+            let k = left.min(b.len());
+            self.got.extend_from_slice(&b[..k]);
+            left -= k;
+        }
+        Ok(taken)
+    }
+    fn flush(&mut self) -> std::io::Result<()> {
+        Ok(())
+    }
+}
+
 pub fn check_style(st: SgrState, with_grid: bool) -> Result<(), (String, String)> {
     let style = style_of(st);
     if state_of(style) != st {
@@ -101,6 +148,20 @@ pub fn check_style(st: SgrState, with_grid: bool) -> Result<(), (String, String)
     if w != disp.as_bytes() {
         return Err(("c05:style:write_to-vs-display".into(), format!("write_to {:?} != Display {:?}", show(&w), show(disp.as_bytes()))));
     }
+    // the io::Write path into writers that take one or three bytes per call, fail with Interrupted every other call, or
+    // implement a gathering write_vectored: same bytes
+    for kind in 0..4u8 {
+        let mut t = Trickle { kind, calls: 0, got: vec![] };
+        style.write_to(&mut t).map_err(|e| ("c05:style:write_to-error".to_string(), format!("writer kind {kind}: {e}")))?;
+        if t.got != disp.as_bytes() {
+            return Err(("c05:style:write_to-short-writes".into(), format!("write_to into a writer of kind {kind} (1 byte / 3 bytes per call, interrupted, vectored) delivered {:?}, Display gives {:?}", show(&t.got), show(disp.as_bytes()))));
+        }
+    }
+    // the alternate flag belongs to Style itself: on the value returned by render() it changes nothing
+    let rend_alt = format!("{:#}", style.render());
+    if rend_alt != disp {
+        return Err(("c05:style:format-flags".into(), format!("format spec {{:#}} on render() produced {:?}, the plain rendering is {:?}", show(rend_alt.as_bytes()), show(disp.as_bytes()))));
+    }
     // reset form
     let reset = format!("{style:#}");
     let reset2 = format!("{}", style.render_reset());
@@ -108,6 +169,13 @@ pub fn check_style(st: SgrState, with_grid: bool) -> Result<(), (String, String)
     style.write_reset_to(&mut w).map_err(|e| ("c05:reset:write_reset_to-error".to_string(), e.to_string()))?;
     if reset != reset2 || w != reset.as_bytes() {
         return Err(("c05:reset:paths-differ".into(), format!("{{:#}} {:?}, render_reset {:?}, write_reset_to {:?}", show(reset.as_bytes()), show(reset2.as_bytes()), show(&w))));
+    }
+    for kind in 0..4u8 {
+        let mut t = Trickle { kind, calls: 0, got: vec![] };
+        style.write_reset_to(&mut t).map_err(|e| ("c05:reset:write_reset_to-error".to_string(), format!("writer kind {kind}: {e}")))?;
+        if t.got != reset.as_bytes() {
+            return Err(("c05:reset:write_reset_to-short-writes".into(), format!("write_reset_to into a writer of kind {kind} delivered {:?}, expected {:?}", show(&t.got), show(reset.as_bytes()))));
+        }
     }
     if plain != reset.is_empty() {
         return Err(("c05:reset:elision".into(), format!("style [{}] (plain={plain}) has reset form {:?}", st.describe(), show(reset.as_bytes()))));
@@ -123,6 +191,7 @@ pub fn check_style(st: SgrState, with_grid: bool) -> Result<(), (String, String)
         let mut v: Vec<(String, String)> = vec![];
         grid!(style, v, false);
         grid!(style.render(), v, false);
+        grid!(style.render(), v, true);
         all_equal("style", &disp, &v)?;
         let mut v: Vec<(String, String)> = vec![];
         grid!(style, v, true);
